@@ -11,7 +11,7 @@ Fixpoint gval_eqb (a b : gval) {struct a} : bool :=
   | GBool x, GBool y => Bool.eqb x y
   | GInt x, GInt y => (x =? y)%Z
   | GUint x, GUint y => x =? y
-  | GF32 x, GF32 y => x =? y
+  | GF32 x, GF32 y => (x =? y) || (f32_is_nan x && f32_is_nan y)   (* the payload bits of a float32 NaN do not survive Go's float32 <-> float64 conversions (a signalling NaN is quieted by the hardware): NaN-ness is compared, not the payload *)
   | GF64 x, GF64 y => x =? y
   | GStr x, GStr y => bytes_eqb x y
   | GBytes _ x, GBytes _ y => bytes_eqb x y
